@@ -7,8 +7,8 @@ package riscv
 import (
 	"strings"
 
-	"mltwist/internal/zzverif/irsem"
 	"mltwist/internal/zzverif/riscvref"
+	"mltwist/internal/zzverif/rvenv"
 	"mltwist/internal/zzverif/sym"
 	"mltwist/pkg/expr"
 	"mltwist/pkg/model"
@@ -18,123 +18,6 @@ import (
 // type's own opcode pattern, every address and every machine state, applying
 // the lifted effects (IR reference semantics) changes registers, CSRs, memory
 // and pc exactly as the RISC-V reference model does.
-
-// vEnv evaluates IR register / memory reads against a RISC-V machine state.
-type vEnv struct {
-	st riscvref.State
-}
-
-// Side conditions on the shape of the lifted effects are accumulated and
-// asserted once per path (one solver query instead of one per register key).
-var vSideMsgs = []string{
-	"register keys are x<N>, csr<N> (decimal) or the instruction pointer",
-	"x0 is never read through a register load (it reads as the constant zero)",
-	"x0 is never written",
-	"x register index < 32",
-	"CSR instructions use one register per unsigned 12-bit CSR number",
-	"memory accesses use the one RISC-V address space",
-}
-var vSide []bool
-
-func vSideReset() {
-	vSide = make([]bool, len(vSideMsgs))
-	for i := range vSide {
-		vSide[i] = true
-	}
-}
-
-func vRequire(i int, c bool) { vSide[i] = sym.And(vSide[i], c) }
-
-func vSideAssert() {
-	for i, m := range vSideMsgs {
-		sym.Assert(vSide[i], m)
-	}
-}
-
-// vParseKey maps a register key to (file, index). Keys may have symbolic
-// digits (they are produced by fmt.Sprintf("x%d", regnum) from a symbolic
-// instruction word).
-func vParseKey(key expr.Key) (file byte, idx sym.BV) {
-	if key == expr.IPKey {
-		return 'p', sym.BVConst(0, 64)
-	}
-	prefix, n, ok := sym.KeyIndex(string(key))
-	switch {
-	case ok && prefix == "x":
-		return 'x', sym.BV64(n)
-	case ok && prefix == "csr":
-		return 'c', sym.BV64(n)
-	}
-	vRequire(0, false)
-	return '?', sym.BVConst(0, 64)
-}
-
-func (e *vEnv) Reg(key expr.Key) sym.BV {
-	file, idx := vParseKey(key)
-	switch file {
-	case 'x':
-		vRequire(1, !idx.Eq(sym.BVConst(0, 64)))
-		vRequire(3, idx.Ult(sym.BVConst(32, 64)))
-		return e.st.X.Select(idx)
-	case 'c':
-		vRequire(4, idx.Ult(sym.BVConst(4096, 64)))
-		return e.st.CSR.Select(idx)
-	case 'p':
-		return e.st.PC
-	}
-	return sym.BVConst(0, e.st.XLEN)
-}
-
-func (e *vEnv) Mem(key expr.Key) sym.Arr {
-	vRequire(5, key == MemoryKey)
-	return e.st.M
-}
-
-// vApply evaluates all effects in the pre-state and applies them in order;
-// an instruction-pointer write is a jump, otherwise execution falls through.
-func vApply(effs []expr.Effect, pre riscvref.State, fallthroughPC sym.BV) riscvref.State {
-	env := &vEnv{st: pre}
-	type upd struct {
-		kind byte // 'x', 'c', 'p', 'm'
-		idx  sym.BV
-		val  sym.BV
-		n    int
-	}
-	var ups []upd
-	for _, ef := range effs {
-		switch e := ef.(type) {
-		case expr.RegStore:
-			v := irsem.Adjust(irsem.Eval(e.Value(), env), e.Width()).ZExt(pre.XLEN)
-			file, idx := vParseKey(e.Key())
-			ups = append(ups, upd{kind: file, idx: idx, val: v})
-		case expr.MemStore:
-			vRequire(5, e.Key() == MemoryKey)
-			a := irsem.Eval(e.Addr(), env).ZExt(64)
-			v := irsem.Adjust(irsem.Eval(e.Value(), env), e.Width())
-			ups = append(ups, upd{kind: 'm', idx: a, val: v, n: int(e.Width())})
-		default:
-			sym.Assert(false, "unknown effect kind")
-		}
-	}
-	post := pre
-	post.PC = fallthroughPC
-	for _, u := range ups {
-		switch u.kind {
-		case 'x':
-			vRequire(2, !u.idx.Eq(sym.BVConst(0, 64)))
-			vRequire(3, u.idx.Ult(sym.BVConst(32, 64)))
-			post.X = post.X.Store(u.idx, u.val)
-		case 'c':
-			vRequire(4, u.idx.Ult(sym.BVConst(4096, 64)))
-			post.CSR = post.CSR.Store(u.idx, u.val)
-		case 'p':
-			post.PC = u.val
-		case 'm':
-			post.M = irsem.StoreBytes(post.M, u.idx, u.val, u.n)
-		}
-	}
-	return post
-}
 
 func vAllTypes(v Variant) []*instructionType {
 	return mergeInstructions([][]*instructionType{instructions[v][extI], instructions[v][ExtM], instructions[v][ExtA]})
@@ -189,6 +72,7 @@ func VerifC01Lift() {
 		sym.Assume(addr < 1<<32)
 	}
 
+	sym.Assert(MemoryKey == rvenv.MemoryKey, "the lifter's memory key")
 	ins := newInstruction(model.Addr(addr), vWordBytes(word), t)
 	var effs []expr.Effect
 	sym.NoPanic(func() { effs = t.validEffects(ins) })
@@ -213,15 +97,15 @@ func VerifC01Lift() {
 		sym.Assume(a.Ule(sym.BVConst(0, xlen).Not().Sub(sym.BVConst(uint64(n-1), xlen))))
 	}
 
-	vSideReset()
-	got := vApply(effs, pre, sym.BV64(uint64(ins.addr)+instructionLen).ZExt(xlen))
+	rvenv.SideReset()
+	got := rvenv.Apply(effs, pre, sym.BV64(uint64(ins.addr)+instructionLen).ZExt(xlen))
 	want, ok := riscvref.Exec(name, sym.BV32(word), pre)
 	sym.Assert(ok, "the reference model knows instruction "+name)
 	if !ok {
 		return
 	}
 
-	vSideAssert()
+	rvenv.SideAssert()
 	px := sym.BVVar("probe.x", 64)
 	pcsr := sym.BVVar("probe.csr", 64)
 	pm := sym.BVVar("probe.mem", 64)
